@@ -14,6 +14,13 @@
           27 = C08_merge_map_loaded: clusters <> templates but n_clusters or the number of cluster waveforms is not the
                number of ids 0..max
           3  = input outside the stated regime (harness bug)
+   Stage 5: geometries with a DISTANCE TIE across the 12-nearest boundary are inside the regime.  Which of the tied channels
+   NumPy's default (unstable) argsort keeps is not determined, so on such a data set the implementation's own per-template
+   channel lists (get_template(t, unwhiten).channel_ids, observed for every template with spikes) are taken as WITNESSES:
+   each must be a legal selection (legal_chans: on the peak channel's shank, every on-shank channel strictly nearer than the
+   12th distance, nothing farther, and a number of boundary-tied channels compatible with exactly 12 nearest channels over all
+   shanks), and clauses 24 / 26 are evaluated with the witnesses in place of the model's channels (any legal selection of any
+   dominant template is accepted).  Without a boundary tie legal_chans admits exactly the model's set.
    The single binary64 division of np.average is reproduced with PrimFloat on the exact operands. *)
 From Coq Require Import ZArith List Bool Arith.
 From PV Require Export Base.NpSearch Base.NpSort Base.Tok Base.TokArith Base.FloatTok C08.Model C08.Spec.
@@ -31,7 +38,11 @@ Record obsrec := mkobs {
   o_data : list (list (list tok));     (* sparse_clusters.data *)
   o_mean_w : list mobs;                (* unwhiten=False, every cluster id with spikes *)
   o_mean_u : list mobs;                (* unwhiten=True *)
-  o_inputs_ok : bool                   (* the loaded arrays are the abstract input (harness self-check) *)
+  o_inputs_ok : bool;                  (* the loaded arrays are the abstract input (harness self-check) *)
+  o_tch_w : list (Z * list Z);         (* (t, get_template(t, unwhiten=False).channel_ids), every template with spikes *)
+  o_tch_u : list (Z * list Z);         (* the same with unwhiten=True *)
+  o_dense : bool                       (* sparse_templates.cols is None: dense storage, the storage this model is about
+                                          (the data set holds a dense templates file and no template_ind file) *)
 }.
 Inductive observed := ObsLoaded (o : obsrec) | ObsCrash.
 Record case := { cid : Z; cin : input; cobs : observed }.
@@ -71,7 +82,14 @@ Definition boundary_ok (d : dset) : bool :=
                     (if (nc <=? Z.to_nat n_closest_channels)%nat then true
                      else negb (nth 11 s (-1) =? nth 12 s (-2))))
           (seq 0 nc).
-Definition in_regime (d : dset) : bool :=
+(* the channel itself is the only one at distance 0 (pairwise distinct positions) *)
+Definition distinct_ok (d : dset) : bool :=
+  forallb (fun b => match sorted_dists d b with
+                    | z0 :: z1 :: _ => (z0 =? 0) && (0 <? z1)
+                    | [z0] => z0 =? 0
+                    | [] => false
+                    end) (seq 0 (n_channels d)).
+Definition in_regime_base (d : dset) : bool :=
   wf_b d &&
   (1 <=? length (d_st d))%nat && (length (d_st d) <=? 4096)%nat &&
   forallb (fun c => (0 <=? c) && (c <? 4096)) (d_sc d) &&
@@ -80,8 +98,11 @@ Definition in_regime (d : dset) : bool :=
   (2 <=? n_channels d)%nat && (n_channels d <=? 64)%nat &&
   (length (d_py d) =? n_channels d)%nat && (length (d_shanks d) =? n_channels d)%nat &&
   forallb (forallb (forallb (fun v => Z.abs v <=? 1024))) (d_tmpl d) &&
-  forallb (forallb (fun v => Z.abs v <=? 64)) (d_wmi d) &&
-  boundary_ok d.
+  forallb (forallb (fun v => Z.abs v <=? 64)) (d_wmi d).
+(* the determined regime (no boundary tie): the model's channels are THE channels *)
+Definition in_regime (d : dset) : bool := in_regime_base d && boundary_ok d.
+(* stage 5: boundary ties allowed (channels judged relationally through witnesses) *)
+Definition in_regime_t (d : dset) : bool := in_regime_base d && distinct_ok d.
 
 (* ---------- clauses ---------- *)
 Definition keys_of (d : dset) : list Z :=
@@ -128,6 +149,85 @@ Definition mean_fn_b (d : dset) (unw : bool) (mo : mobs) : bool :=
 Definition mean_fns_b (d : dset) (unw : bool) (l : list mobs) : bool :=
   zlist_eqb (map mo_c l) (np_unique (d_sc d)) && forallb (mean_fn_b d unw) l.
 
+(* ---------- stage 5: boundary ties, witnesses ---------- *)
+Definition dists_from (d : dset) (b : nat) : list Z :=
+  match nth_error (d_px d) b, nth_error (d_py d) b with
+  | Some x0, Some y0 => zip_with Z.add (map (fun x => (x - x0) * (x - x0)) (d_px d))
+                                       (map (fun y => (y - y0) * (y - y0)) (d_py d))
+  | _, _ => []
+  end.
+Definition zcount (f : Z -> bool) (l : list Z) : Z := Z.of_nat (length (filter f l)).
+(* chans is a legal channel list of template t (route unw): see the header *)
+Definition legal_chans (d : dset) (unw : bool) (t : nat) (chans : list Z) : bool :=
+  let x := tmpl_of d unw t in
+  match col_fold Z.max x, col_fold Z.min x with
+  | Some mx, Some mn =>
+      match argmax (zip_with Z.sub mx mn) with
+      | None => false
+      | Some b =>
+          let nc := n_channels d in
+          let dd := dists_from d b in
+          let dist := fun ch => nth (Z.to_nat ch) dd (-1) in
+          let n' := Nat.min (Z.to_nat n_closest_channels) nc in
+          let D := nth (n' - 1) (sorted_dists d b) (-1) in
+          let shank := nth b (d_shanks d) (-1) in
+          let on_shank := fun ch => nth (Z.to_nat ch) (d_shanks d) (-2) =? shank in
+          let all := zrange 0 nc in
+          let k := Z.of_nat n' - zcount (fun ch => dist ch <? D) all in
+          let tied_off := zcount (fun ch => (dist ch =? D) && negb (on_shank ch)) all in
+          let a := zcount (fun ch => dist ch =? D) chans in
+          (length (np_unique chans) =? length chans)%nat &&
+          forallb (fun ch => (0 <=? ch) && (ch <? Z.of_nat nc) && on_shank ch && (dist ch <=? D)) chans &&
+          forallb (fun ch => negb (on_shank ch && (dist ch <? D)) || memZ ch chans) all &&
+          memZ (Z.of_nat b) chans &&
+          (k - tied_off <=? a) && (a <=? k)
+      end
+  | _, _ => false
+  end.
+Definition wit_chans (w : list (Z * list Z)) (t : nat) : list Z :=
+  match find (fun p => fst p =? Z.of_nat t) w with Some p => snd p | None => [] end.
+(* the witnesses are exactly one legal list per template with spikes *)
+Definition wit_ok (d : dset) (unw : bool) (w : list (Z * list Z)) : bool :=
+  zlist_eqb (map fst w) (np_unique (d_st d)) &&
+  forallb (fun p => legal_chans d unw (Z.to_nat (fst p)) (snd p)) w.
+(* in the determined regime the witnesses are, as sets, the model's channels *)
+Definition wit_model_b (d : dset) (unw : bool) (w : list (Z * list Z)) : bool :=
+  forallb (fun p => zlist_eqb (np_unique (snd p)) (np_unique (chans_of d unw (Z.to_nat (fst p))))) w.
+Definition tables_wit (d : dset) (unw : bool) (c : Z) (w : list (Z * list Z)) : tables :=
+  let ts := seq 0 (length (d_tmpl d)) in
+  mktab (map (fun t => cnt d c (Z.of_nat t)) ts) (map (wit_chans w) ts) (map (tmpl_of d unw) ts).
+(* 24 with witnesses *)
+Definition mean_wit_b (d : dset) (w : list (Z * list Z)) (odata : list (list (list tok))) : bool :=
+  forallb (fun c => match tset d c with
+                    | _ :: _ :: _ =>
+                        match nth_error odata (Z.to_nat c) with
+                        | Some orow =>
+                            let tbl := tables_wit d false c w in
+                            existsb (fun tb => mat_eqb (mean_rows_f d c tbl (wit_chans w tb)) orow) (dominants d c)
+                        | None => false
+                        end
+                    | _ => true
+                    end) (keys_of d).
+(* 26 with witnesses *)
+Definition mean_fn_wit_b (d : dset) (unw : bool) (w : list (Z * list Z)) (mo : mobs) : bool :=
+  let c := mo_c mo in
+  let tbl := tables_wit d unw c w in
+  let den := zsum (tb_w tbl) in
+  existsb (fun tb =>
+             let chans := wit_chans w tb in
+             zlist_eqb (map fst (mo_cols mo)) (np_unique chans) &&
+             (length (np_unique chans) =? length chans)%nat &&
+             forallb (fun p => all2b (fun s t => rat_tok_eqb (mkrat (wnum_f tbl s (fst p)) den) t)
+                                     (seq 0 (n_samples_wf d)) (snd p)) (mo_cols mo))
+          (dominants d c).
+Definition mean_fns_wit_b (d : dset) (unw : bool) (w : list (Z * list Z)) (l : list mobs) : bool :=
+  zlist_eqb (map mo_c l) (np_unique (d_sc d)) && forallb (mean_fn_wit_b d unw w) l.
+(* the model's rows are compared only for clusters that do not stem from several templates *)
+Definition model_data_t_b (d : dset) (m : loaded) (o : obsrec) : bool :=
+  all2b (fun crow orow => if l_curated m && (2 <=? length (tset d (fst crow)))%nat
+                          then (length (snd crow) =? length orow)%nat else mat_eqb (snd crow) orow)
+        (combine (zrange 0 (length (l_data m))) (l_data m)) (o_data o).
+
 (* ---------- model comparison ---------- *)
 Definition tie_free (d : dset) (c : Z) : bool := (length (dominants d c) <=? 1)%nat.
 
@@ -153,19 +253,15 @@ Definition model_data_b (d : dset) (m : loaded) (o : obsrec) : bool :=
                           then (length (snd crow) =? length orow)%nat else mat_eqb (snd crow) orow)
         (combine (zrange 0 (length (l_data m))) (l_data m)) (o_data o).
 
-Definition check (c : case) : list Z :=
-  match cin c with InLoad d =>
-  if negb (in_regime d) then [3] else
-  match load d, cobs c with
-  | None, _ => [3]
-  | Some _, ObsCrash => [1; 20]
-  | Some m, ObsLoaded o =>
-      if negb (o_inputs_ok o) then [3] else
+Definition check_det (d : dset) (m : loaded) (o : obsrec) : list Z :=
       let g1 := all2b (fun k kv => (k =? fst kv)) (zrange 0 (length (l_mm m))) (o_mm o) &&
                 all2b zlist_eqb (l_mm m) (map snd (o_mm o)) &&
                 zlist_eqb (l_nan m) (o_nan o) && (l_ncl m =? o_ncl o) && (n_templates d =? o_nt o) &&
-                model_data_b d m o &&
-                forallb (model_mean_b d false) (o_mean_w o) && forallb (model_mean_b d true) (o_mean_u o) in
+                model_data_b d m o && o_dense o &&
+                forallb (model_mean_b d false) (o_mean_w o) && forallb (model_mean_b d true) (o_mean_u o) &&
+                (* stage 5: the observed per-template channel lists are the model's (as sets) *)
+                wit_ok d false (o_tch_w o) && wit_ok d true (o_tch_u o) &&
+                wit_model_b d false (o_tch_w o) && wit_model_b d true (o_tch_u o) in
       let cur := l_curated m in
       flag 1 g1 ++
       (if cur then flag 21 (mm_b (d_st d) (d_sc d) (o_mm o)) ++ flag 22 (nan_b (d_sc d) (o_nan o)) ++
@@ -174,8 +270,62 @@ Definition check (c : case) : list Z :=
       flag 23 (single_b d (o_data o)) ++
       flag 24 (mean_b d (o_data o)) ++
       (if cur then [] else flag 22 (nan_n_b (n_templates d) (d_sc d) (o_nan o)) ++ flag 25 (identity_b d o)) ++
-      flag 26 (mean_fns_b d false (o_mean_w o) && mean_fns_b d true (o_mean_u o))
+      flag 26 (mean_fns_b d false (o_mean_w o) && mean_fns_b d true (o_mean_u o)).
+
+(* a distance tie crosses the 12-nearest boundary of some channel: channels through witnesses *)
+Definition check_tie (d : dset) (m : loaded) (o : obsrec) : list Z :=
+      let g1 := all2b (fun k kv => (k =? fst kv)) (zrange 0 (length (l_mm m))) (o_mm o) &&
+                all2b zlist_eqb (l_mm m) (map snd (o_mm o)) &&
+                zlist_eqb (l_nan m) (o_nan o) && (l_ncl m =? o_ncl o) && (n_templates d =? o_nt o) &&
+                model_data_t_b d m o && o_dense o in
+      let cur := l_curated m in
+      let wok_w := wit_ok d false (o_tch_w o) in
+      let wok_u := wit_ok d true (o_tch_u o) in
+      flag 1 g1 ++
+      (if cur then flag 21 (mm_b (d_st d) (d_sc d) (o_mm o)) ++ flag 22 (nan_b (d_sc d) (o_nan o)) ++
+                   flag 27 ((o_ncl o =? zlen (o_mm o)) && (length (o_data o) =? length (o_mm o))%nat)
+       else []) ++
+      flag 23 (single_b d (o_data o)) ++
+      flag 24 (wok_w && mean_wit_b d (o_tch_w o) (o_data o)) ++
+      (if cur then [] else flag 22 (nan_n_b (n_templates d) (d_sc d) (o_nan o)) ++ flag 25 (identity_b d o)) ++
+      flag 26 (wok_w && wok_u && mean_fns_wit_b d false (o_tch_w o) (o_mean_w o) &&
+               mean_fns_wit_b d true (o_tch_u o) (o_mean_u o)).
+
+Definition check (c : case) : list Z :=
+  match cin c with InLoad d =>
+  if negb (in_regime_t d) then [3] else
+  match load d, cobs c with
+  | None, _ => [3]
+  | Some _, ObsCrash => [1; 20]
+  | Some m, ObsLoaded o =>
+      if negb (o_inputs_ok o) then [3] else
+      if boundary_ok d then check_det d m o else check_tie d m o
   end end.
+
+(* ---------- stage 5: non-vacuity of legal_chans ---------- *)
+(* a regular 16-channel linear probe, template 0 peaks on channel 8: the 12th nearest channel is channel 2 or 14 *)
+Definition ex_line : dset :=
+  let row := fun pk => map (fun k => if k =? pk then 9 else 1) (zrange 0 16) in
+  mkds [0; 1] [2; 2] [[row 8; repeat 0 16]; [row 3; repeat 0 16]]
+       (repeat 0 16) (map (fun k => 20 * k) (zrange 0 16)) (repeat 0 16)
+       (map (fun i => map (fun j => if i =? j then 1 else 0) (zrange 0 16)) (zrange 0 16)).
+Example ex_line_regime : in_regime_t ex_line = true /\ boundary_ok ex_line = false.
+Proof. split; vm_compute; reflexivity. Qed.
+Example ex_line_low : legal_chans ex_line false 0 (zrange 2 12) = true.       (* 2 .. 13 *)
+Proof. vm_compute; reflexivity. Qed.
+Example ex_line_high : legal_chans ex_line false 0 (zrange 3 12) = true.      (* 3 .. 14 *)
+Proof. vm_compute; reflexivity. Qed.
+Example ex_line_both : legal_chans ex_line false 0 (zrange 2 13) = false.     (* 2 .. 14: thirteen channels *)
+Proof. vm_compute; reflexivity. Qed.
+Example ex_line_short : legal_chans ex_line false 0 (zrange 3 11) = false.    (* 3 .. 13: eleven channels *)
+Proof. vm_compute; reflexivity. Qed.
+Example ex_line_hole : legal_chans ex_line false 0 (2 :: 14 :: zrange 4 10) = false.   (* channel 3 (strictly nearer) missing *)
+Proof. vm_compute; reflexivity. Qed.
+(* template 1 peaks on channel 3: no tie (0 .. 11 are the 12 nearest), exactly the model's set is legal *)
+Example ex_line_det : legal_chans ex_line false 1 (chans_of ex_line false 1) = true /\
+                      legal_chans ex_line false 1 (zrange 1 12) = false /\
+                      np_unique (chans_of ex_line false 1) = zrange 0 12.
+Proof. repeat split; vm_compute; reflexivity. Qed.
 
 Definition run (cases : list case) : list (Z * Z) :=
   flat_map (fun c => map (fun code => (cid c, code)) (check c)) cases.
